@@ -620,6 +620,47 @@ class Main {
       "first\nagain\nagain\n100\n100\n101\n103\n106\n110\n100\n100\n101\n104\n110\n120\nhello world\n1\n3\n7\n15\n31\n63\nshort long ne\nlong short ne\nsame eq\nempty eq\nempty short ne",
       None,
     ),
+    demo(
+      "methods that are not inlined and hand `this` on: returned, out of an if-else or match, as a loop value, in a field, captured",
+      r#"class Holder(val f: Foo, val n: int) {}
+class Opt<T>(None, Some(T)) {}
+class Log(val entries: Vec<Str>) {
+  method add(n: int): Log = { let _ = this.entries.push(Str.fromInt(n)); this }
+  method dump(i: int): unit = if i < this.entries.length() { let _ = Process.println(this.entries.get(i)); this.dump(i + 1) } else {  }
+}
+class Foo(val a: int) {
+  method me(flag: bool): Foo = if flag { Foo.init(1) } else { this }
+  method same(n: int): Foo = { let other = this; if n > 0 { other.same(n - 1) } else { other } }
+  method boxed(n: int): Holder = Holder.init(this, n)
+  method walk(n: int): Foo = if n == 0 { this } else { this.walk(n - 1) }
+  method adder(k: int): (int) -> int = (x: int) -> x + this.a + k
+  method some(n: int): Opt<Foo> = if n > 0 { Opt.Some(this) } else { Opt.None<Foo>() }
+  method pick(o: Opt<Foo>): Foo = match o { None -> this, Some(v) -> v }
+}
+class Main {
+  function main(): unit = {
+    let log = Log.init(Vec.empty<Str>()).add(1).add(2).add(3);
+    let _ = log.dump(0);
+    let f = Foo.init(3);
+    let h = f.me;
+    let _ = Process.println(Str.fromInt(h("0".toInt() == 1).a));
+    let g = f.same;
+    let _ = Process.println(Str.fromInt(g(2).a));
+    let b = f.boxed;
+    let _ = Process.println(Str.fromInt(b(4).f.a + b(5).n));
+    let w = f.walk;
+    let _ = Process.println(Str.fromInt(w(3).a));
+    let ad = f.adder;
+    let _ = Process.println(Str.fromInt(ad(10)(100)));
+    let so = f.some;
+    let _ = Process.println(Str.fromInt(match so(1) { None -> 0, Some(v) -> v.a }));
+    let pk = f.pick;
+    let _ = Process.println(Str.fromInt(pk(Opt.None<Foo>()).a + pk(Opt.Some(Foo.init(20))).a));
+  }
+}"#,
+      "1\n2\n3\n3\n3\n8\n3\n113\n3\n23",
+      None,
+    ),
   ]
 }
 
@@ -750,12 +791,7 @@ fn verif_witness_search_exec_optimizer() {
     for (label, configuration) in configurations() {
       let c = back_end(&mut p, Some(&configuration));
       let r = run_wasm(&node, &w, &p, &c);
-      if r.failure.as_ref().is_some_and(|m| m.contains("CompileError")) && !configuration.does_perform_inlining {
-        // the WebAssembly lowering needs inlining to have run for some programs (a back-end matter): not executable.
-        // With inlining on — the configuration the compiler ships with — an invalid module is a failure like any other.
-        skipped += 1;
-        continue;
-      }
+      // a module that does not validate is a failure like any other (before fix fe037dc some programs needed inlining to validate)
       let got = normalized(&r);
       n += 1;
       if got != reference {
